@@ -50,8 +50,8 @@ PROPERTIES = {
              "function (gap recorded, re-received segment removed, tail gap at EOF, coalescing keeps the set).",
              "Level 'other' because the completeness half ('the tracker view equals the set of bytes not yet stored') needs a ghost set of "
              "stored bytes across calls; it is carried by the per-function view contracts above plus C18, not by a single discharged "
-             "invariant. Open findings F13/F13b/F21 (bookkeeping for File Data/EOF while waiting for Metadata, EOF (cancel) smaller than "
-             "the data received) are reported as KNOWN-FINDING. " + ENV,
+             "invariant. Open findings F13b/F13c/F21 (EOF or File Data PDUs inconsistent with an EOF size received earlier) are reported "
+             "as KNOWN-FINDING. " + ENV,
              "Dest: _lost_segment_handling, _handle_fd_pdu, _handle_eof_pdu, _handle_fd_without_previous_metadata, "
              "_handle_eof_without_previous_metadata, _handle_waiting_for_missing_metadata, _start_deferred_lost_segment_handling, "
              "_deferred_lost_segment_handling (loop invariant + per-iteration obligations), _fsm_advancement_after_packets_were_sent; "
@@ -81,14 +81,15 @@ PROPERTIES = {
              "Source: _handle_segment_req, __handle_retransmission, _prepare_file_data_pdu, _prepare_metadata_pdu, "
              "_fsm_advancement_after_packets_were_sent, dispatch in _sending_file_data_fsm / _handle_waiting_for_ack / "
              "_handle_wait_for_finish.", [STUBS, ENV], [STUBS]),
-    "C10": P("proof",
+    "C10": P("other",
              "Both public state machines, put/cancel requests and get_next_packet are proved to end only normally or with a declared "
              "protocol exception, for every PDU kind and every state satisfying the (proved inductive) handler invariants; every private "
              "callee's precondition is proved at its call site; a PDU rejected by the admission check modifies nothing; "
              "UnretrievedPdusToBeSent only if the queue was non-empty at entry.",
-             "Open findings F5a (UnretrievedPdusToBeSent for a PDU queued in the same call) and F5b (tracker ValueError leaks) are reported "
-             "as KNOWN-FINDING; FileNotFoundError from a filestore race is treated as the filestore's documented exception. Default fault "
-             "handler table as the property says. " + ENV,
+             "Level 'other' only because of open findings: the preconditions of _handle_waiting_for_missing_metadata / _handle_eof_pdu that "
+             "exclude F13b, F13c and F21 (EOF/File Data PDUs inconsistent with an earlier EOF size) cannot be established by the dispatcher "
+             "for arbitrary PDUs and are reported as KNOWN-FINDING; every other obligation is discharged. FileNotFoundError from a filestore "
+             "race is treated as the filestore's documented exception. Default fault handler table as the property says. " + ENV,
              "Source: state_machine, _fsm_non_idle (one instance per step), _check_inserted_packet and all their callees. Dest: "
              "state_machine, __idle_fsm, __non_idle_fsm (8 statement slices with a common mid-condition), _check_inserted_packet and all "
              "their callees.", [STUBS, ENV], [STUBS]),
@@ -101,12 +102,13 @@ PROPERTIES = {
              "filestore calls, public state). " + ENV,
              "Dest: _reset_internal, __idle_fsm, _handle_waiting_for_finished_ack, _handle_finished_pdu_sent, state_machine. Source: "
              "_reset_internal, _notice_of_completion, state_machine (invariant S9).", [STUBS, ENV], [STUBS]),
-    "C12": P("proof",
+    "C12": P("other",
              "cancel_request of both handlers: returns true iff busy with that transaction id; a refused request changes nothing; sender: "
              "exactly one EOF(Cancel Request Received) with size = progress and the filestore checksum of that prefix, then EOF-ACK wait "
              "or idle; receiver: CANCELED, condition code, local entity as fault location, completion step; EOF (cancel) handling, "
              "reported condition and disposition-on-cancellation deletion are proved per function.",
-             "Open finding F16 (EOF (cancel) before Metadata) is reported as KNOWN-FINDING. " + ENV,
+             "Level 'other' only because of the open finding F16 (an EOF (cancel) that arrives before the Metadata PDU is handled like a "
+             "regular EOF), reported as KNOWN-FINDING; every other obligation is discharged. " + ENV,
              "Source: cancel_request, _notice_of_cancellation, _handle_positive_ack_procedures (re-sent EOF). Dest: cancel_request, "
              "_handle_eof_pdu, _notice_of_completion, _handle_transfer_completion, _prepare_finished_pdu, "
              "_fsm_advancement_after_packets_were_sent and _deferred_lost_segment_handling (cancel condition is never overwritten).",
@@ -118,12 +120,13 @@ PROPERTIES = {
              "Finished PDU cancels with Check Limit Reached.",
              ENV, "Dest: _handle_eof_pdu, _check_limit_handling, _checksum_verify. Source: _handle_eof_sent, _handle_wait_for_finish; mib "
              "defaults (checksum failure ignored).", [STUBS, ENV], [STUBS]),
-    "C14": P("proof",
+    "C14": P("other",
              "The table API (construction, get_fault_handler, set_handler, report_fault) is proved against a finite-map model for every "
              "condition and handler code; both _declare_fault implementations are proved, case-split on the configured code, to invoke "
              "exactly one callback of that kind with (transaction id, condition, progress at declaration) and to have the configured "
              "effect; each declaration site is proved to declare the right condition.",
-             "Open finding F5c (destination keeps using the parameter block after ABANDON) is reported as KNOWN-FINDING; the sender's "
+             "Level 'other' only because of the open finding F5c (the destination keeps using the parameter block after a fault configured "
+             "as ABANDON), reported as KNOWN-FINDING; the destination's declaration sites are proved for the default table. The sender's "
              "abandon during the cancel exchange is C04's rule. " + ENV,
              "mib.DefaultFaultHandlerBase.{__init__, get_fault_handler, set_handler, report_fault}; source/dest _declare_fault; "
              "declaration sites.", [STUBS, ENV], [STUBS]),
